@@ -8,6 +8,9 @@ import NurbsVerif.Lemmas.KnotVec2
 import NurbsVerif.Lemmas.BasisOne2
 import NurbsVerif.Lemmas.BasisDersOne2
 import NurbsVerif.Lemmas.UniqueLocal
+import NurbsVerif.Lemmas.CdbSupport
+import NurbsVerif.Lemmas.BasisDersOneEnd
+import NurbsVerif.Lemmas.RefineCount
 
 /-!
 # C03  Basis functions and knot-span search satisfy their defining identities
@@ -330,5 +333,88 @@ theorem basisFuns_linearly_independent (p : ℕ) (U : ℕ → K) (κ : ℕ) (hm 
 
 /-- non-vacuity: on the span `[0, 1)` of `0,0,0,1,1,1` the three quadratic Bernstein values at `1/2` -/
 example : basisFuns 2 (fnOf ([0,0,0,1,1,1] : List ℚ)) 2 (1/2) = [1/4, 1/2, 1/4] := by decide +kernel
+
+/-! ### exact support of a Cox–de Boor function (no span index) -/
+
+/-- **Support of `N_{i,p}`** (Cox–de Boor, Eq. 2.5 with `0/0 := 0`) for a non-decreasing knot function, every degree,
+    every index and EVERY number `u` (inside or outside the domain; no span index `k` is involved):
+    `N_{i,p}(u) ≥ 0`, and `N_{i,p}(u) ≠ 0` – equivalently `> 0` – iff `U_i ≤ u < U_{i+p+1}` and (`U_i < u` or
+    `U_{i+p} ≤ u`).  The last clause only matters at `u = U_i`: the function is non-zero there exactly when `U_i` has
+    multiplicity `p + 1` inside the support (`U_i = … = U_{i+p}`; e.g. the first function of a clamped vector). -/
+theorem coxDeBoor_support (p : ℕ) (U : ℕ → K) (hm : Monotone U) (i : ℕ) (u : K) :
+    0 ≤ cdb U p i u ∧
+    (cdb U p i u ≠ 0 ↔ U i ≤ u ∧ u < U (i + p + 1) ∧ (U i < u ∨ U (i + p) ≤ u)) ∧
+    (0 < cdb U p i u ↔ U i ≤ u ∧ u < U (i + p + 1) ∧ (U i < u ∨ U (i + p) ≤ u)) :=
+  ⟨cdb_nonneg_all U hm u p i, cdb_ne_zero_iff_support U hm p i u, cdb_pos_iff_support U hm p i u⟩
+
+/-- … the zero set: `N_{i,p}(u) = 0` iff `u < U_i`, or `U_{i+p+1} ≤ u`, or `u = U_i < U_{i+p}`; in particular the
+    function vanishes outside `[U_i, U_{i+p+1})` (local support) and identically when that interval is empty
+    (a knot of multiplicity `p + 2`). -/
+theorem coxDeBoor_zero_set (p : ℕ) (U : ℕ → K) (hm : Monotone U) (i : ℕ) (u : K) :
+    (cdb U p i u = 0 ↔ u < U i ∨ U (i + p + 1) ≤ u ∨ (u = U i ∧ u < U (i + p))) ∧
+    (u < U i ∨ U (i + p + 1) ≤ u → cdb U p i u = 0) ∧
+    (U (i + p + 1) = U i → cdb U p i u = 0) :=
+  ⟨cdb_eq_zero_iff_support U hm p i u, cdb_eq_zero_of_outside U hm u p i,
+   cdb_eq_zero_of_empty_support U hm p i u⟩
+
+/-- … by multiplicity of the left knot: with `U_i < U_{i+p}` (multiplicity at most `p` inside the support) the
+    function is non-zero (positive) exactly on the OPEN interval `(U_i, U_{i+p+1})`; with `U_i = U_{i+p}` (multiplicity
+    `p + 1`) exactly on the half-open interval `[U_i, U_{i+p+1})`. -/
+theorem coxDeBoor_support_by_multiplicity (p : ℕ) (U : ℕ → K) (hm : Monotone U) (i : ℕ) (u : K) :
+    (U i < U (i + p) → (cdb U p i u ≠ 0 ↔ U i < u ∧ u < U (i + p + 1))) ∧
+    (U (i + p) = U i → (cdb U p i u ≠ 0 ↔ U i ≤ u ∧ u < U (i + p + 1))) ∧
+    (U i < u → u < U (i + p + 1) → 0 < cdb U p i u) :=
+  ⟨cdb_ne_zero_iff_open U hm p i u, cdb_ne_zero_iff_halfopen U hm p i u,
+   fun h1 h2 => cdb_pos U hm u p i (le_of_lt h1) h2 (Or.inl h1)⟩
+
+/-- non-vacuity (repeated knots `0,0,0,1,1,2,2,2`, degree 2): at the double knot `u = 1` the function `N_{2,2}`
+    (support `[0, 2)`, left knot simple in it) is positive, `N_{3,2}` (support `[1, 2)`, `u = U_3 < U_5`) vanishes;
+    at `u = 0` the first function (left knot of multiplicity 3) is 1 -/
+example : (List.range 5).map (fun i => cdb (fnOf ([0,0,0,1,1,2,2,2] : List ℚ)) 2 i 1) = [0, 0, 1, 0, 0] ∧
+    cdb (fnOf ([0,0,0,1,1,2,2,2] : List ℚ)) 2 0 0 = 1 := by decide +kernel
+example : Monotone (fnOf ([0,0,0,1,1,2,2,2] : List ℚ)) := mono_of_pairwise _ (by decide +kernel)
+
+/-! ### A2.5 outside the half-open support, in particular at the last knot -/
+
+/-- **A2.5 at the last knot, as coded.**  `helpers.basis_function_ders_one` starts with the guard
+    `knot < U[span] or knot >= U[span + degree + 1]`: outside the half-open support `[U_i, U_{i+p+1})` it returns
+    `order + 1` zeros (any knot function, every order – also `order > degree`, for which the routine would otherwise
+    raise).  Hence at the last knot `U_{m-1}` of a non-decreasing knot vector with `m` knots it returns zeros for EVERY
+    function index it accepts (`i + p + 1 ≤ m - 1`) and every order.
+    These zeros are the values / right-hand derivatives of the half-open Cox–de Boor functions (`cdbD`,
+    `basisFunDersOne_eq_recurrence`), NOT the left-limit derivatives at the end of a clamped domain: see
+    `basisFunDersOne_last_knot_differs`.  The exact oracle of C03 judges A2.5 only for `u` below the domain end (there it
+    must equal the column of `basis_function_ders`); at the last knot it is covered by the correspondence stream
+    `bdersone` (model = code, i.e. zeros) only – a recorded observation, no verdict depends on it. -/
+theorem basisFunDersOne_last_knot (p : ℕ) (U : ℕ → K) (i : ℕ) (u : K) (order : ℕ) :
+    (u < U i ∨ U (i + p + 1) ≤ u → basisFunDersOne p U i u order = List.replicate (order + 1) 0) ∧
+    (∀ m, Monotone U → i + p + 2 ≤ m → basisFunDersOne p U i (U (m - 1)) order = List.replicate (order + 1) 0) :=
+  ⟨basisFunDersOne_outside p U i u order, fun m hm hi => Geomdl.basisFunDersOne_last_knot p U hm m i order hi⟩
+
+/-- **… which is not what A2.4 and A2.3 return there.**  Clamped end (`U_k < U_{k+1} = … = U_{m-1}`, `m = k + p + 2`
+    knots), last function `N_{k,p}`, parameter = last knot: A2.5 returns the value 0, A2.4 (`basis_function_one`, its own
+    special case) returns 1, and row 0 of the A2.3 table on the last span `k` (the span the searches return at the domain
+    end) has 1 in its last column – the left-limit convention every evaluator uses. -/
+theorem basisFunDersOne_last_knot_differs (p : ℕ) (U : ℕ → K) (hm : Monotone U) (m k : ℕ) (order d : ℕ)
+    (hp : p ≤ k) (hm2 : k + p + 2 = m) (hne : U k < U (k+1)) (hcl : U (k+1) = U (m-1)) :
+    (basisFunDersOne p U k (U (m-1)) order).getD 0 0 = 0 ∧
+    basisFunOne p U m k (U (m-1)) = 1 ∧
+    ((basisDers p U k (U (m-1)) d).getD 0 []).getD p 0 = 1 :=
+  basisFunDersOne_clamped_end_differs p U hm m k order d hp hm2 hne hcl
+
+/-- … derivatives included, on the quadratic Bézier knots `0,0,0,1,1,1` at `u = 1` for the last function: A2.5 returns
+    `0, 0, 0`, the left-limit value and derivatives (column 2 of the A2.3 table on span 2, the span found at `u = 1`) are
+    `1, 2, 2`; just below the end A2.5 is close to them.
+    (Closed witness check: a statement about this one concrete input, decided by evaluation.) -/
+theorem basisFunDersOne_last_knot_witness :
+    basisFunDersOne 2 (fnOf ([0,0,0,1,1,1] : List ℚ)) 2 1 2 = [0, 0, 0] ∧
+    (List.range 3).map (fun k => ((basisDers 2 (fnOf ([0,0,0,1,1,1] : List ℚ)) 2 1 2).getD k []).getD 2 0) = [1, 2, 2] ∧
+    findSpanLinear 2 (fnOf ([0,0,0,1,1,1] : List ℚ)) 3 1 = 2 ∧
+    basisFunDersOne 2 (fnOf ([0,0,0,1,1,1] : List ℚ)) 2 (99/100) 2 = [9801/10000, 99/50, 2] := by
+  decide +kernel
+
+/-- non-vacuity of the clamped-end hypotheses: `0,0,0,1,1,1`, `p = 2`, `k = 2`, `m = 6` -/
+example : (2:ℕ) ≤ 2 ∧ 2 + 2 + 2 = 6 ∧ fnOf ([0,0,0,1,1,1] : List ℚ) 2 < fnOf ([0,0,0,1,1,1] : List ℚ) (2+1) ∧
+    fnOf ([0,0,0,1,1,1] : List ℚ) (2+1) = fnOf ([0,0,0,1,1,1] : List ℚ) (6-1) := by decide +kernel
 
 end C03
